@@ -638,6 +638,8 @@ class RunBundler:
 
     async def restore_monitors(self):
         for obj, (cb, kwargs) in self._monitor_params.items():
+            # never end up subscribed twice (e.g. overlapping suspensions)
+            obj.clear_sub(cb)
             obj.subscribe(cb, **kwargs)
 
     async def clear_checkpoint(self, msg):
